@@ -15,6 +15,7 @@ import (
 
 	simplefixgo "github.com/b2broker/simplefix-go"
 	"github.com/b2broker/simplefix-go/fix"
+	"github.com/b2broker/simplefix-go/storages/memory"
 	fixgen "github.com/b2broker/simplefix-go/tests/fix44"
 	"vlib"
 	"vsched"
@@ -73,19 +74,24 @@ func c10History(c c10Case) (string, string) {
 	if strings.ContainsAny(c.In, "tu") {
 		hb = 1
 	}
-	w := newWorld(wcfg{Role: c.Role, Buf: 20, HbMin: 1, HbMax: 30, HbInt: hb})
+	w := newWorld(wcfg{Role: c.Role, Buf: 20, HbMin: 1, HbMax: 30, HbInt: hb, SeqReset: strings.Contains(c.In, "s")})
 	w.logonOK(hb)
 	if !w.s.IsLogged() {
 		return "setup:not-logged", ""
 	}
 	probes := 0
+	lastCounted := 0
+	var alts []int // other values of "last number received" a session may hold after a SequenceReset (see below)
 	for i, p := range c.In {
 		switch p {
 		case 'i':
+			alts = nil
 			w.in(w.msg("D", "11=in"+strconv.Itoa(i)))
 		case 'h':
+			alts = nil
 			w.in(w.msg("0"))
 		case 't', 'u':
+			alts = nil
 			time.Sleep(2100 * time.Millisecond) // silence: the session probes the peer
 			vsched.Settle()
 			probes++
@@ -96,7 +102,26 @@ func c10History(c c10Case) (string, string) {
 				w.in(w.msg("D", "11=while-probed"))
 			}
 			w.in(w.msg("0", "112="+strconv.Itoa(probes)))
+		case 's':
+			// the peer skips three numbers with a SequenceReset (gap fill).  The library as pinned has no handler
+			// for it (its number is not even counted); one that honours it expects NewSeqNo next.  Either view is
+			// accepted: the last number received is k-1, k or NewSeqNo-1 - never anything else
+			k := w.nextIn
+			if alts == nil {
+				lastCounted = k - 1
+			}
+			w.in(w.msg("4", "123=Y", "36="+strconv.Itoa(k+4)))
+			w.nextIn = k + 4
+			alts = []int{lastCounted, k - 1, k}
+		case 'X':
+			// the connection ends without a logout; the next session works on the same store
+			w.h.Stop()
+			vsched.Settle()
+			nextIn := w.nextIn
+			w = newWorld(wcfg{Role: c.Role, Buf: 20, HbMin: 1, HbMax: 30, HbInt: hb, SeqReset: strings.Contains(c.In, "s"), Store: w.st})
+			w.nextIn = nextIn
 		case 'P':
+			alts = nil // (a message with a number of its own followed the SequenceReset)
 			w.in(w.msg("5"))
 		case 'L', 'M':
 			_ = w.s.Logout()
@@ -107,7 +132,7 @@ func c10History(c c10Case) (string, string) {
 			w.in(w.msg("5"))
 		}
 	}
-	if w.s.IsLogged() {
+	if w.s.IsLogged() && !strings.HasSuffix(c.In, "X") {
 		return "setup:still-logged-after-logout", ""
 	}
 	if w.ctxDone {
@@ -132,6 +157,14 @@ func c10History(c c10Case) (string, string) {
 	w.in(rawFrom(w.peer, w.self, "A", seq, "98=0", "108="+strconv.Itoa(hb)))
 	outs := w.take()
 	sig, d := gapOracle(stored, seq, outs, w.s.IsLogged())
+	for _, a := range alts {
+		if sig == "" {
+			break
+		}
+		if s2, _ := gapOracle(a, seq, outs, w.s.IsLogged()); s2 == "" {
+			sig = ""
+		}
+	}
 	if sig != "" {
 		sig = "history-" + sig
 	}
@@ -187,6 +220,15 @@ func c10Run(c c10Case) (string, string) {
 				return !ok || !strings.HasPrefix(r.MDReqID(), "refuse-")
 			})
 		}
+	}
+	base := 0
+	if strings.HasPrefix(c.Pattern, "M") {
+		// a long-lived counter store: the logon message is number 999,998, the history crosses a million (six
+		// and seven digits; 999999 is a number like any other)
+		base = 999997
+		st := memory.NewStorage()
+		_ = st.SetSeqNum(fix.StorageID{Side: fix.Outgoing}, base)
+		wc.Store = st
 	}
 	if strings.HasPrefix(c.Pattern, "k") {
 		// a store that keeps counterparties apart
@@ -248,13 +290,13 @@ func c10Run(c c10Case) (string, string) {
 	sent := make([]outMsg, n)
 	have := make([]bool, n+1)
 	for _, o := range first {
-		k := seqOf(o.Msg)
+		k := seqOf(o.Msg) - base
 		if k < 1 || k > n || have[k] {
 			return "setup:numbering", fmt.Sprintf("first transmissions carry %d twice or outside 1..%d", k, n)
 		}
 		sent[k-1], have[k] = o, true
 	}
-	if !strings.ContainsAny(c.Pattern, "pgmk") {
+	if !strings.ContainsAny(c.Pattern, "pgmkM") {
 		// number 1 is the logon message, letter i of the pattern takes number i+2; a refused message leaves its number unused
 		for i := range c.Pattern {
 			if have[i+2] != (c.Pattern[i] != 'r') {
@@ -265,7 +307,16 @@ func c10Run(c c10Case) (string, string) {
 	w.take()
 	for _, be := range c.Reqs {
 		b, e := be[0], be[1]
-		w.in(w.msg("2", "7="+strconv.Itoa(b), "16="+strconv.Itoa(e)))
+		ab, ae := b, e
+		if base > 0 {
+			if b > 0 {
+				ab = b + base
+			}
+			if e > 0 {
+				ae = e + base
+			}
+		}
+		w.in(w.msg("2", "7="+strconv.Itoa(ab), "16="+strconv.Itoa(ae)))
 		outs := w.take()
 		hi := e
 		if e == 0 {
@@ -278,7 +329,7 @@ func c10Run(c c10Case) (string, string) {
 		// whatever is sent must be a sub-sequence of the recorded range b..hi, byte-identical, ascending
 		last := 0
 		for _, o := range outs {
-			q := seqOf(o.Msg)
+			q := seqOf(o.Msg) - base
 			if mtype(o.Msg) == "3" && q > n {
 				continue // a fresh Reject (own new number) is not a retransmission
 			}
@@ -297,7 +348,7 @@ func c10Run(c c10Case) (string, string) {
 		if exact {
 			cnt := 0
 			for _, o := range outs {
-				if seqOf(o.Msg) <= n {
+				if seqOf(o.Msg)-base <= n {
 					cnt++
 				}
 			}
@@ -384,6 +435,15 @@ func runC10(R *vlib.Out) {
 			}
 		}
 		genIn("")
+		// the connection simply ends (no logout), in particular right after a SequenceReset of the peer; the next
+		// session on the same store detects the gap from what was received
+		for _, in := range []string{"X", "iX", "hX", "sX", "isX", "ssX", "siX"} {
+			for _, d := range []int{0, 1, 3} {
+				if !try(c10Case{Role: role, In: in, D: d}) {
+					return
+				}
+			}
+		}
 		for _, in := range ins {
 			for _, d := range []int{0, 1, 3} {
 				if !try(c10Case{Role: role, In: in, D: d}) {
@@ -418,6 +478,7 @@ func runC10(R *vlib.Out) {
 				pats = append(pats, "m"+p, "k"+p)
 			}
 		}
+		pats = append(pats, "Maaa", "Mhah")
 		// one refused application message at every position of every short history of replies and application
 		// messages: its number stays unused, every other message is found under the number it was sent with
 		for _, p := range append([]string{}, pats...) {
